@@ -30,6 +30,7 @@ func checkC08(c *Ctx) {
 	c.retainedInsertStores()
 	c.retainedIsDeepCopy()
 	c.endOfLevelsSignal()
+	c.lookupsConsultTheTree()
 	c.R.Rule(ruleG5, "storage whose address is handed out of a critical section (the retained message returned by the lookup) is never mutated in place afterwards: no Decode/Set*/Encode-into/copy-into on a value loaded from the stored field; updates replace the stored object by a freshly allocated one.")
 	c.R.Rule(ruleG7, "a *PublishMessage obtained from the retained-store lookup is never the receiver of a mutator unless it is the result of Clone().")
 	c.R.Rule(ruleT4, "a trie node is deleted from its parent's map only under a condition that tests every content field of the node type (rnode: msg and rnodes; snode: subs and snodes; the parallel fields qos/buf are shadows).")
